@@ -44,7 +44,7 @@ COUNTS = {'quick': 350, 'thorough': 8000}
 BUDGET = {'quick': 110, 'thorough': 1500}
 TIMEOUT = 200
 SHRINK_LISTS = []
-EXPECTED_PROBES = ['failure_constructed', 'success_reexamined', 'dependant_checked', 'cli_checked', 'nan_injected',
+EXPECTED_PROBES = ['later_routine_after_failure', 'failure_constructed', 'success_reexamined', 'dependant_checked', 'cli_checked', 'nan_injected',
                    'collapse_reached', 'criteria_tripped', 'io_corrupted']
 RULE = ('fixed catalogue (class x case x position) enumerated completely, then seeded combinations; non-trivial = the failure '
         'actually occurred (routine did fail / fault fired) or a success was re-examined; distinct = (class, case, position/format)')
@@ -348,6 +348,14 @@ def check_failed_tds(ss, hist, cls, v, probes, fired):
     extra = [r['t'] for r in hist['store_log'] if r['t'] not in acc]
     if extra:
         v.append(V('failure_reported', 'rows stored for rejected/aborted steps at t=%s' % extra[:3], cls=cls, what='rows_from_rejected'))
+    if not seg['ret'] and seg['exit_code'] != 0 and not v:
+        # a later routine that succeeds must not wipe the recorded failure (the process exit status accumulates)
+        ec = int(ss.exit_code)
+        ret2, exc2 = call(ss.EIG.run)
+        probes['later_routine_after_failure'] = probes.get('later_routine_after_failure', 0) + 1
+        if exc2 is None and int(ss.exit_code) < ec:
+            v.append(V('failure_reported', 'after the failed TDS (exit code %d) EIG.run() returned %r and the exit code is now %d' %
+                       (ec, ret2, int(ss.exit_code)), cls=cls, what='exit_code_lost', later='EIG'))
 
 
 def sc_tds_nan(p, v, probes):
